@@ -3500,7 +3500,14 @@ def coroutine_invariant_spellings(case):
         async def check(self, other):
             return True
 
-    conds = {"async def": check, "partial": functools.partial(check, k=1), "nested partial": functools.partial(functools.partial(check), k=2),
+    def sync_pred(self):
+        return True
+
+    @functools.wraps(sync_pred)
+    async def asyncified(self):
+        return sync_pred(self)
+
+    conds = {"async wrapper of a sync predicate": asyncified, "async def": check, "partial": functools.partial(check, k=1), "nested partial": functools.partial(functools.partial(check), k=2),
              "partial without arguments": functools.partial(check), "bound method": H().check}
     cond = conds[case["spelling"]]
     kwargs = {}
@@ -3518,7 +3525,7 @@ def coroutine_invariant_spellings(case):
 
 
 def coroutine_invariant_spellings_cases():
-    for spelling in ("async def", "partial", "nested partial", "partial without arguments", "bound method"):
+    for spelling in ("async def", "partial", "nested partial", "partial without arguments", "bound method", "async wrapper of a sync predicate"):
         for check_on in (False, True):
             yield {"dom": "directed", "name": "coroutine_invariant_spellings", "spelling": spelling, "check_on": check_on}
 
@@ -4354,7 +4361,407 @@ def method_aliased_as_setattr_in_subclass_cases():
     yield {"dom": "directed", "name": "method_aliased_as_setattr_in_subclass"}
 
 
-SCENARIOS = {"generator_functions": generator_functions, "post_init_inherits": post_init_inherits, "descriptor_members": descriptor_members, "abstract_redeclaration": abstract_redeclaration, "base_exception_error_classes": base_exception_error_classes, "wrapper_above_inheriting_override": wrapper_above_inheriting_override, "error_function_bad_returns": error_function_bad_returns, "deep_nesting": deep_nesting, "lenient_objects_as_condition_values": lenient_objects_as_condition_values, "disabled_invariant_is_absent": disabled_invariant_is_absent, "diamond_orders": diamond_orders, "async_message_equals_sync": async_message_equals_sync, "method_aliased_as_setattr_in_subclass": method_aliased_as_setattr_in_subclass, "awaitable_kinds": awaitable_kinds, "wrapped_async_public_method": wrapped_async_public_method, "odd_member_names": odd_member_names, "member_attached_later": member_attached_later, "partial_binding_a_parameter_name": partial_binding_a_parameter_name, "odd_capture_callables": odd_capture_callables, "error_function_called_every_time": error_function_called_every_time, "method_contracts_during_reentry": method_contracts_during_reentry, "constructor_interrupted": constructor_interrupted, "first_calls_at_the_same_moment": first_calls_at_the_same_moment, "base_call_while_override_runs": base_call_while_override_runs, "constructor_keyword_named_cls": constructor_keyword_named_cls, "property_docstrings": property_docstrings, "functions_from_one_definition": functions_from_one_definition, "late_decoration_of_inheriting_accessor": late_decoration_of_inheriting_accessor, "reserved_placeholders_without_var_keyword": reserved_placeholders_without_var_keyword, "coroutine_invariant_spellings": coroutine_invariant_spellings, "default_limits": default_limits, "one_function_in_two_roles": one_function_in_two_roles, "callable_exception_instance": callable_exception_instance, "contracts_on_bound_methods": contracts_on_bound_methods, "rejected_constructions_do_not_accumulate": rejected_constructions_do_not_accumulate, "sometimes_awaitable_condition": sometimes_awaitable_condition, "property_inherited_into_class_with_invariants": property_inherited_into_class_with_invariants, "members_from_invariantless_bases": members_from_invariantless_bases, "invariants_while_another_thread_reports": invariants_while_another_thread_reports, "separation_in_every_interpreter_mode": separation_in_every_interpreter_mode, "falsy_and_truthy_values": falsy_and_truthy_values, "special_results": special_results, "contracts_on_partial": contracts_on_partial, "error_functions_sharing_code": error_functions_sharing_code, "closed_from_another_context": closed_from_another_context, "proxies_and_nested_constructors": proxies_and_nested_constructors, "member_added_between_invariants": member_added_between_invariants, "integrator_snapshot_without_postcondition": integrator_snapshot_without_postcondition, "exception_from_new": exception_from_new, "interrupt_while_message_is_built": interrupt_while_message_is_built, "concurrent_constructors_without_init": concurrent_constructors_without_init, "async_def_spelling": async_def_spelling, "class_keyword_arguments": class_keyword_arguments, "reserved_keyword_after_valid_calls": reserved_keyword_after_valid_calls, "call_while_constructor_runs": call_while_constructor_runs, "constructor_calls_back": constructor_calls_back, "contract_calls_same_method_of_fresh_object": contract_calls_same_method_of_fresh_object, "odd_exception_classes": odd_exception_classes, "sync_layer_over_coroutine": sync_layer_over_coroutine, "keyword_named_self": keyword_named_self, "decorating_another_function": decorating_another_function, "late_decoration_of_inheriting_override": late_decoration_of_inheriting_override, "used_before_override": used_before_override, "rewritten_file": rewritten_file, "shared_decorator": shared_decorator, "construct_inside_contract": construct_inside_contract,
+# --------------------------------------------------------------------------- round 13
+
+def capture_reenters_function(case):
+    """a snapshot capture that calls the very function it belongs to (a pure query remembering its own value) re-enters a
+    function whose contracts are being evaluated: the nested call is made bare - one capture per outside call, no recursion"""
+    evaluated = []
+
+    def cap(self):
+        evaluated.append("capture")
+        return self.q()
+
+    def same(result, OLD):
+        return result == OLD.q
+
+    if case["flavour"] == "sync":
+        class A:
+            def __init__(self):
+                self.v = 3
+
+            @icontract.snapshot(cap, name="q")
+            @icontract.ensure(same)
+            def q(self):
+                return self.v
+        call = lambda: A().q()  # noqa: E731
+    else:
+        async def acap(self):
+            evaluated.append("capture")
+            return await self.q()
+
+        class A:
+            def __init__(self):
+                self.v = 3
+
+            @icontract.snapshot(acap, name="q")
+            @icontract.ensure(same)
+            async def q(self):
+                return self.v
+        call = lambda: _drive_all(A().q())  # noqa: E731
+    fails = []
+    try:
+        if call() != 3:
+            fails.append("the query returned another value")
+    except BaseException as e:  # noqa: B902
+        fails.append("the query raised %s" % type(e).__name__)
+    if evaluated != ["capture"]:
+        fails.append("%s: the capture was evaluated %d times for one outside call" % (case["flavour"], len(evaluated)))
+    return {"fails": fails}
+
+
+def capture_reenters_function_cases():
+    for flavour in ("sync", "async"):
+        yield {"dom": "directed", "name": "capture_reenters_function", "flavour": flavour}
+
+
+def old_attribute_errors(case):
+    """reading a snapshot that was never captured raises an AttributeError that EXPLAINS itself - whatever the name looks like"""
+    def cap(lst):
+        return list(lst)
+
+    name = case["read"]
+
+    def post(lst, OLD):
+        return getattr(OLD, name) is not None
+
+    @icontract.snapshot(cap, name=case["captured"])
+    @icontract.ensure(post)
+    def f(lst):
+        return lst
+
+    try:
+        f([1])
+        got = "returned"
+    except AttributeError as e:
+        msg = str(e)
+        got = "ok" if (name in msg and "snapshot" in msg.lower()) else "AttributeError without explanation: %r" % msg[:120]
+    except BaseException as e:  # noqa: B902
+        got = "raised %s" % type(e).__name__
+    return {"fails": [] if got == "ok" else ["reading OLD.%s (captured: %s): %s" % (name, case["captured"], got)]}
+
+
+def old_attribute_errors_cases():
+    for captured, read in (("items", "item"), ("_items", "_item"), ("_items", "items"), ("__x", "_x"), ("lst", "_lst")):
+        yield {"dom": "directed", "name": "old_attribute_errors", "captured": captured, "read": read}
+
+
+def async_error_function_on_invariant(case):
+    """an `async def` function given as `error` is a function like any other: accepted when the contract is created - by
+    `invariant` as by `require` and `ensure` - and, as it does not return an exception, a violation surfaces as TypeError"""
+    async def make_error(self):
+        return ValueError("x")
+
+    async def make_error_x(x):
+        return ValueError("x")
+
+    def positive(self):
+        return self.x > 0
+
+    def pos(x):
+        return x > 0
+
+    fails = []
+    import warnings
+    with warnings.catch_warnings():
+        warnings.simplefilter("ignore")
+        try:
+            if case["deco"] == "invariant":
+                @icontract.invariant(positive, error=make_error)
+                class A:
+                    def __init__(self, x):
+                        self.x = x
+                call = A
+            elif case["deco"] == "require":
+                @icontract.require(pos, error=make_error_x)
+                def f(x):
+                    return x
+                call = f
+            else:
+                @icontract.ensure(pos, error=make_error_x)
+                def f(x):
+                    return x
+                call = f
+        except BaseException as e:  # noqa: B902
+            return {"fails": ["%s with an async def error function was refused at creation: %s: %s" % (case["deco"], type(e).__name__, str(e)[:80])]}
+        try:
+            call(-1)
+            got = "returned"
+        except TypeError:
+            got = "TypeError"
+        except BaseException as e:  # noqa: B902
+            got = type(e).__name__
+    if got != "TypeError":
+        fails.append("%s with an async def error function: a violation gave %s, expected TypeError" % (case["deco"], got))
+    return {"fails": fails}
+
+
+def async_error_function_on_invariant_cases():
+    for deco in ("invariant", "require", "ensure"):
+        yield {"dom": "directed", "name": "async_error_function_on_invariant", "deco": deco}
+
+
+def contract_on_builtin_with_callback(case):
+    """a contract placed on a C-implemented function that takes a call-back (sorted, bisect, ...): calls of the contracted
+    function made by the call-back are calls made by the BODY - fully checked"""
+    evaluated = []
+
+    def nonempty(iterable):
+        evaluated.append(("pre", len(iterable)))
+        return len(iterable) > 0
+
+    checked_sorted = icontract.require(nonempty)(sorted)
+    fails = []
+    try:
+        checked_sorted([[3, 1], [], [2]], key=lambda r: tuple(checked_sorted(r)))
+        fails.append("the nested call on the empty row returned normally; preconditions evaluated on %s" % evaluated)
+    except icontract.ViolationError:
+        pass
+    except BaseException as e:  # noqa: B902
+        fails.append("raised %s: %s" % (type(e).__name__, str(e)[:80]))
+    del evaluated[:]
+    try:
+        out = checked_sorted([[3, 1], [2]], key=lambda r: tuple(checked_sorted(r)))
+        if out != [[3, 1], [2]] and out != [[2], [3, 1]] or len(evaluated) != 3:
+            fails.append("valid nested calls: result %s, preconditions evaluated on %s (expected 3 evaluations)" % (out, evaluated))
+    except BaseException as e:  # noqa: B902
+        fails.append("valid nested calls raised %s" % type(e).__name__)
+    return {"fails": fails}
+
+
+def contract_on_builtin_with_callback_cases():
+    yield {"dom": "directed", "name": "contract_on_builtin_with_callback"}
+
+
+def condition_raising_type_error(case):
+    """an exception raised BY a condition surfaces as that very exception - also a TypeError (or a sub-class of it), which
+    must not be mistaken for a complaint about the condition's arguments"""
+    class UnitMismatch(TypeError):
+        pass
+
+    boom = UnitMismatch("metres vs seconds")
+
+    class Metres:
+        def __gt__(self, other):
+            raise boom
+
+    fails = []
+    role = case["role"]
+    try:
+        if role == "invariant":
+            @icontract.invariant(lambda self: self.width > 0)
+            class A:
+                def __init__(self):
+                    self.width = Metres()
+            A()
+        elif role == "invariant-method":
+            @icontract.invariant(lambda self: self.width > 0)
+            class B:
+                def __init__(self):
+                    self.width = 1
+
+                def set(self):
+                    self.width = Metres()
+            B().set()
+        elif role == "require":
+            @icontract.require(lambda w: w > 0)
+            def f(w):
+                return w
+            f(Metres())
+        else:
+            @icontract.ensure(lambda result: result > 0)
+            def g():
+                return Metres()
+            g()
+        got = "returned"
+    except UnitMismatch as e:
+        got = "ok" if e is boom else "another UnitMismatch"
+    except BaseException as e:  # noqa: B902
+        got = "raised %s: %s" % (type(e).__name__, str(e)[:80])
+    return {"fails": [] if got == "ok" else ["%s whose condition raises a TypeError sub-class: %s, expected that very exception" % (role, got)]}
+
+
+def condition_raising_type_error_cases():
+    for role in ("invariant", "invariant-method", "require", "ensure"):
+        yield {"dom": "directed", "name": "condition_raising_type_error", "role": role}
+
+
+def nested_constructor_keeps_outer_marks(case):
+    """a constructor of ANOTHER class with invariants called while something is in progress (inside a public method's body,
+    inside a condition) leaves the marks of the outer evaluation as they were - whether it succeeds or is refused"""
+    def balanced(self):
+        return self.balance >= 0
+
+    def nonneg(self):
+        return self.amount >= 0
+
+    @icontract.invariant(nonneg)
+    class Entry:
+        def __init__(self, amount):
+            self.amount = amount
+
+    @icontract.invariant(balanced)
+    class Ledger:
+        def __init__(self):
+            self.balance = 0
+            self.notes = []
+
+        def note(self, text):
+            self.notes.append(text)
+
+        def transfer(self, amount, bad_entry):
+            self.balance = -1                       # temporarily broken inside the body
+            try:
+                Entry(-3 if bad_entry else amount)
+            except icontract.ViolationError:
+                pass
+            self.note("transfer")                   # a nested call on self: unchecked while self is in progress
+            self.balance = amount
+
+    fails = []
+    for bad_entry in (False, True):
+        try:
+            Ledger().transfer(5, bad_entry)
+        except icontract.ViolationError:
+            fails.append("a method that constructs an Entry (%s) in its body and then calls another method of itself got a spurious "
+                         "violation: the constructor wiped the mark of the outer object" % ("refused" if bad_entry else "accepted"))
+        except BaseException as e:  # noqa: B902
+            fails.append("raised %s" % type(e).__name__)
+    probes = []
+
+    def builds_token(x):
+        Entry(1)
+        probes.append(probe(x))                     # re-enters its own function: bare
+        return True
+
+    @icontract.require(builds_token)
+    def probe(x):
+        return x
+
+    try:
+        probe(1)
+        if probes != [1]:
+            fails.append("a precondition that constructs an object and re-enters its function: inner results %s" % probes)
+    except RecursionError:
+        fails.append("a precondition that constructs an object and then re-enters its own function recursed without bound")
+    except BaseException as e:  # noqa: B902
+        fails.append("raised %s" % type(e).__name__)
+    return {"fails": fails}
+
+
+def nested_constructor_keeps_outer_marks_cases():
+    yield {"dom": "directed", "name": "nested_constructor_keeps_outer_marks"}
+
+
+def constructor_results(case):
+    """what `__init__` returns reaches the caller as without invariants: a direct call hands back the body's object, and a
+    constructor that returns something makes instantiation fail with TypeError exactly like the bare class"""
+    marker = object()
+
+    def fine(self):
+        return True
+
+    def body(self, give=False):
+        self.x = 1
+        return marker if give else None
+
+    plain = type("P", (), {"__init__": body})
+    if case["how"] == "decorator":
+        K = icontract.invariant(fine)(type("K", (), {"__init__": body}))
+    else:
+        K = icontract.invariant(fine)(type("K", (icontract.DBC,), {"__init__": body}))
+    fails = []
+    for cls in (K,):
+        obj = cls.__new__(cls)
+        got = cls.__init__(obj, give=True)
+        if got is not marker:
+            fails.append("%s: __init__ called directly returned %r instead of the object its body returned" % (case["how"], got))
+        outs = []
+        for c in (plain, cls):
+            try:
+                c(give=True)
+                outs.append("created")
+            except TypeError:
+                outs.append("TypeError")
+            except BaseException as e:  # noqa: B902
+                outs.append(type(e).__name__)
+        if outs[0] != outs[1]:
+            fails.append("%s: instantiating with a constructor that returns an object: %s, the bare class: %s" % (case["how"], outs[1], outs[0]))
+    return {"fails": fails}
+
+
+def constructor_results_cases():
+    for how in ("decorator", "dbc"):
+        yield {"dom": "directed", "name": "constructor_results", "how": how}
+
+
+def placeholders_named_but_not_evaluated(case):
+    """`_ARGS` / `_KWARGS` are listed whenever the condition NAMES them as parameters - also when it is a named function, when
+    the parameter is keyword-only, or when the part of the lambda that reads it was not evaluated"""
+    src = (
+        "import icontract\n"
+        "def named(_ARGS, x):\n"
+        "    return x > 0\n"
+        "def named_kwonly(x, *, _ARGS, _KWARGS):\n"
+        "    return x > 0\n"
+        "@icontract.require(named)\n"
+        "def f_named(x, y=0):\n"
+        "    return x\n"
+        "@icontract.require(named_kwonly)\n"
+        "def f_named_kwonly(x, y=0):\n"
+        "    return x\n"
+        "@icontract.require(lambda _ARGS, x: x > 0 and len(_ARGS) == 1)\n"
+        "def f_unevaluated(x, y=0):\n"
+        "    return x\n"
+        "@icontract.require(lambda x, *, _ARGS: x > 0 and len(_ARGS) == 1)\n"
+        "def f_kwonly(x, y=0):\n"
+        "    return x\n"
+        "@icontract.require(lambda _KWARGS, x: len(_KWARGS) > 5 if x > 0 else False)\n"
+        "def f_branch(x, y=0):\n"
+        "    return x\n"
+        "@icontract.require(lambda x: x > 0)\n"
+        "def f_plain(x, y=0):\n"
+        "    return x\n"
+    )
+    import os
+    import tempfile
+    import shutil
+    import importlib.util
+    d = tempfile.mkdtemp(prefix="verif_ph_")
+    path = os.path.join(d, "verif_ph_mod.py")
+    with open(path, "w") as fh:
+        fh.write(src)
+    spec = importlib.util.spec_from_file_location("verif_ph_mod_%d" % os.getpid(), path)
+    mod = importlib.util.module_from_spec(spec)
+    spec.loader.exec_module(mod)
+    fails = []
+    want = {"f_named": ["_ARGS was"], "f_named_kwonly": ["_ARGS was", "_KWARGS was"], "f_unevaluated": ["_ARGS was"], "f_kwonly": ["_ARGS was"],
+            "f_branch": ["_KWARGS was"], "f_plain": []}
+    for name, lines in sorted(want.items()):
+        try:
+            getattr(mod, name)(-1, y=2)
+            fails.append("%s(-1, y=2) returned normally" % name)
+            continue
+        except icontract.ViolationError as e:
+            text = str(e)
+        except BaseException as e:  # noqa: B902
+            fails.append("%s(-1, y=2) raised %s: %s" % (name, type(e).__name__, str(e)[:80]))
+            continue
+        for ln in lines:
+            if ln not in text:
+                fails.append("%s: the condition names the placeholder but the message has no `%s ...` line:\n%s" % (name, ln, text))
+        for ph in ("_ARGS was", "_KWARGS was"):
+            if ph not in lines and ph in text:
+                fails.append("%s: the message shows `%s ...` although the condition does not name it:\n%s" % (name, ph, text))
+    shutil.rmtree(d, ignore_errors=True)
+    return {"fails": fails}
+
+
+def placeholders_named_but_not_evaluated_cases():
+    yield {"dom": "directed", "name": "placeholders_named_but_not_evaluated"}
+
+
+SCENARIOS = {"capture_reenters_function": capture_reenters_function, "old_attribute_errors": old_attribute_errors, "async_error_function_on_invariant": async_error_function_on_invariant, "contract_on_builtin_with_callback": contract_on_builtin_with_callback, "condition_raising_type_error": condition_raising_type_error, "nested_constructor_keeps_outer_marks": nested_constructor_keeps_outer_marks, "constructor_results": constructor_results, "placeholders_named_but_not_evaluated": placeholders_named_but_not_evaluated, "generator_functions": generator_functions, "post_init_inherits": post_init_inherits, "descriptor_members": descriptor_members, "abstract_redeclaration": abstract_redeclaration, "base_exception_error_classes": base_exception_error_classes, "wrapper_above_inheriting_override": wrapper_above_inheriting_override, "error_function_bad_returns": error_function_bad_returns, "deep_nesting": deep_nesting, "lenient_objects_as_condition_values": lenient_objects_as_condition_values, "disabled_invariant_is_absent": disabled_invariant_is_absent, "diamond_orders": diamond_orders, "async_message_equals_sync": async_message_equals_sync, "method_aliased_as_setattr_in_subclass": method_aliased_as_setattr_in_subclass, "awaitable_kinds": awaitable_kinds, "wrapped_async_public_method": wrapped_async_public_method, "odd_member_names": odd_member_names, "member_attached_later": member_attached_later, "partial_binding_a_parameter_name": partial_binding_a_parameter_name, "odd_capture_callables": odd_capture_callables, "error_function_called_every_time": error_function_called_every_time, "method_contracts_during_reentry": method_contracts_during_reentry, "constructor_interrupted": constructor_interrupted, "first_calls_at_the_same_moment": first_calls_at_the_same_moment, "base_call_while_override_runs": base_call_while_override_runs, "constructor_keyword_named_cls": constructor_keyword_named_cls, "property_docstrings": property_docstrings, "functions_from_one_definition": functions_from_one_definition, "late_decoration_of_inheriting_accessor": late_decoration_of_inheriting_accessor, "reserved_placeholders_without_var_keyword": reserved_placeholders_without_var_keyword, "coroutine_invariant_spellings": coroutine_invariant_spellings, "default_limits": default_limits, "one_function_in_two_roles": one_function_in_two_roles, "callable_exception_instance": callable_exception_instance, "contracts_on_bound_methods": contracts_on_bound_methods, "rejected_constructions_do_not_accumulate": rejected_constructions_do_not_accumulate, "sometimes_awaitable_condition": sometimes_awaitable_condition, "property_inherited_into_class_with_invariants": property_inherited_into_class_with_invariants, "members_from_invariantless_bases": members_from_invariantless_bases, "invariants_while_another_thread_reports": invariants_while_another_thread_reports, "separation_in_every_interpreter_mode": separation_in_every_interpreter_mode, "falsy_and_truthy_values": falsy_and_truthy_values, "special_results": special_results, "contracts_on_partial": contracts_on_partial, "error_functions_sharing_code": error_functions_sharing_code, "closed_from_another_context": closed_from_another_context, "proxies_and_nested_constructors": proxies_and_nested_constructors, "member_added_between_invariants": member_added_between_invariants, "integrator_snapshot_without_postcondition": integrator_snapshot_without_postcondition, "exception_from_new": exception_from_new, "interrupt_while_message_is_built": interrupt_while_message_is_built, "concurrent_constructors_without_init": concurrent_constructors_without_init, "async_def_spelling": async_def_spelling, "class_keyword_arguments": class_keyword_arguments, "reserved_keyword_after_valid_calls": reserved_keyword_after_valid_calls, "call_while_constructor_runs": call_while_constructor_runs, "constructor_calls_back": constructor_calls_back, "contract_calls_same_method_of_fresh_object": contract_calls_same_method_of_fresh_object, "odd_exception_classes": odd_exception_classes, "sync_layer_over_coroutine": sync_layer_over_coroutine, "keyword_named_self": keyword_named_self, "decorating_another_function": decorating_another_function, "late_decoration_of_inheriting_override": late_decoration_of_inheriting_override, "used_before_override": used_before_override, "rewritten_file": rewritten_file, "shared_decorator": shared_decorator, "construct_inside_contract": construct_inside_contract,
              "cancelled_in_body": cancelled_in_body, "recreated_class": recreated_class}
 
 
